@@ -40,6 +40,6 @@ def t3(rep, tier, seed):
 def run(rep, tier, seed):
     rep.level = "exploration"
     rep.assume("A1", "A4", "A6", "A7", "A8")
-    D.run_contracts(rep, "C10", D.COVER, tier, with_lemmas=True, also=('C05',))
+    D.run_contracts(rep, "C10", D.COVER + D.TQ, tier, with_lemmas=True, also=('C05',))
     t3(rep, tier, seed)
     D.link_falsifier(rep)
